@@ -35,7 +35,10 @@ RULE = ("sessions on generated directories: 2-4 loaded species (1-3 residues eac
         "successful extrapolation or a calculate_exchange_maps, detaching with .end = None, end molecules with velocities (all / mixed), a target with another number of "
         "residues; one title line in twelve is empty; half of the Systems built step by step (constructor with the first "
         "0..n topologies, add_ftop / add_molecule_top for the rest, any order); residue numbers consecutive, with gaps, "
-        "arbitrary, or repeated across molecules; plus the shipped BMIM/BF4 box. A session is non-trivial when distinct.")
+        "arbitrary, or repeated across molecules; one system in three (of those with a multi-residue species) has a further "
+        "species made of a contiguous part of its residues, sharing residue kinds (longer topology loaded first); atom and "
+        "residue numbers of all topology files and end-molecule coordinate files from 1, offset, 0-based, with gaps, all "
+        "equal or descending; plus the shipped BMIM/BF4 box. A session is non-trivial when distinct.")
 
 ECODES = [(OSError, 1), (IndexError, 2), (ValueError, 3), (SystemError, 5), (TypeError, 6), (KeyError, 7)]
 
@@ -104,6 +107,62 @@ def _geom(rs, n, bonds):
     return pos
 
 
+def sub_species(rs, par, index):
+    """a species whose residues are a proper contiguous part of the residues of `par` (same residue names, atom
+    names and sizes), with its own bonds, geometry and final resolution"""
+    resnrs = sorted(set(a[2] for a in par["cg_atoms"]))
+    n = len(resnrs)
+    length = int(rs.randint(1, n))
+    lo = int(rs.randint(0, n - length + 1))
+    keep = resnrs[lo:lo + length]
+    cg_atoms = [[a[0], a[1], keep.index(a[2]) + 1] for a in par["cg_atoms"] if a[2] in keep]
+    m = len(cg_atoms)
+    cg_bonds = [list(b) for b in (gen_graph(rs, m)[1] if m >= 3 else ([(0, 1)] if m == 2 else []))]
+    cg_geom = _geom(rs, m, cg_bonds)
+    aa_sizes = [int(rs.randint(1, 6)) for _ in keep]
+    aa_resn = ["T%d%s" % (index, "ABC"[j]) for j in range(length)]
+    aa_atoms, _ = _resolution(rs, aa_resn, aa_sizes, "C")
+    aa_bonds = [[i, i + 1] for i in range(len(aa_atoms) - 1)]
+    return {"name": "M%d" % index, "cg_atoms": cg_atoms, "cg_bonds": cg_bonds, "cg_geom": cg_geom.tolist(),
+            "aa_atoms": aa_atoms, "aa_bonds": aa_bonds, "part_of": par["name"]}
+
+
+def gen_numbering(rs, sp):
+    """atom and residue numbers as they stand in the topology files and in the end molecule's coordinate file: from
+    1, from another offset (0-based, cut out of a bigger file, near the 5-digit wrap), with gaps, and in the .gro also
+    all equal or descending.  None of them may reach the output."""
+    def increasing(n):
+        k = int(rs.randint(0, 3))
+        if k == 0:
+            return list(range(1, n + 1))
+        x = int(rs.choice([0, 2, 17, 2301, 99990]))
+        out = []
+        for _ in range(n):
+            out.append(x)
+            x += 1 + (int(rs.randint(1, 9)) if k == 2 and rs.randint(0, 2) else 0)
+        return out
+
+    def any_numbers(n):
+        k = int(rs.randint(0, 4))
+        if k <= 1:
+            return increasing(n)
+        if k == 2:
+            return [int(rs.randint(0, 100000))] * n
+        return list(range(n + int(rs.randint(0, 50)), 0, -1))[:n]
+
+    def residues():
+        k = int(rs.randint(0, 3))
+        if k == 0:
+            return [1, 2, 3, 4]
+        if k == 1:
+            x = int(rs.choice([0, 5, 480, 99998]))
+            return [x, x + 1, x + 2, x + 3]
+        return [int(x) for x in rs.permutation(900)[:4] + 1]
+    ncg, naa = len(sp["cg_atoms"]), len(sp["aa_atoms"]) + 2
+    return {"cg_itp_num": increasing(ncg), "cg_itp_res": residues(), "aa_itp_num": increasing(naa),
+            "aa_itp_res": residues(), "aa_gro_num": any_numbers(naa), "aa_gro_res": residues()}
+
+
 def gen_spec(rs, kind=None, big=False):
     """a whole session: directory content + call sequence (everything JSON-serialisable, coordinates already
     rounded to the decimals of the files)"""
@@ -134,12 +193,33 @@ def gen_spec(rs, kind=None, big=False):
         aa_bonds = [[i, i + 1] for i in range(len(aa_atoms) - 1)]
         species.append({"name": "M%d" % k, "cg_atoms": cg_atoms, "cg_bonds": cg_bonds, "cg_geom": cg_geom.tolist(),
                         "aa_atoms": aa_atoms, "aa_bonds": aa_bonds})
+    # a further species made of a proper contiguous part of the residues of a multi-residue one (oligomer + free
+    # monomer, peptide + free amino acid): the two species SHARE residue kinds (same residue name, atoms, names)
+    shared = None
+    cands = [k for k, sp in enumerate(species)
+             if len(set(a[1] for a in sp["cg_atoms"])) == len(set(a[2] for a in sp["cg_atoms"])) >= 2]
+    if cands and rs.randint(0, 3) == 0:
+        par = int(rs.choice(cands))
+        species.append(sub_species(rs, species[par], len(species)))
+        shared = [par, len(species) - 1]
+        nsp += 1
+    for sp in species:
+        sp["numbering"] = gen_numbering(rs, sp)
     # roles
     loaded = list(range(nsp))
     not_loaded = []
     if nsp >= 3 and rs.randint(0, 2):
         not_loaded = [loaded.pop(int(rs.randint(0, nsp)))]            # present in the file, topology not given
+    if shared and shared[0] in not_loaded:
+        # the part can only be told from the whole once the whole has been recognised: without the topology of the
+        # longer species the shorter one is not given either
+        loaded.remove(shared[1])
+        not_loaded.append(shared[1])
     load_order = [int(x) for x in rs.permutation(loaded)]
+    if shared and shared[1] in load_order and load_order.index(shared[1]) < load_order.index(shared[0]):
+        # the longer topology first: the only order in which the package can tell the two apart
+        i, j = load_order.index(shared[1]), load_order.index(shared[0])
+        load_order[i], load_order[j] = load_order[j], load_order[i]
     with_end = [s for s in load_order if rs.randint(0, 4)]            # subsets of species given an end molecule
     if len(with_end) == len(load_order) and len(load_order) > 1 and rs.randint(0, 2):
         with_end.pop(int(rs.randint(0, len(with_end))))               # an unmapped species (loaded, no end)
@@ -202,7 +282,8 @@ def gen_spec(rs, kind=None, big=False):
     if rs.randint(0, 12) == 0:
         title = ""                                                  # an empty title line is a title like any other
     spec = {"title": title, "box": box, "species": species, "tokens": tokens, "mols": mols,
-            "load_order": load_order, "not_loaded": not_loaded, "resid0": resid0,
+            "load_order": load_order, "not_loaded": not_loaded, "resid0": resid0, "shared": shared,
+            "sys_anum0": int(rs.choice([1, 1, 0, 4321, 99990])),
             "sys_vel": bool(rs.randint(0, 5) == 0), "rand_seed": int(rs.randint(0, 2 ** 31 - 1))}
     # how the System is built: the first n_ctor topologies go to the constructor, the others are added afterwards
     # with add_ftop (0) / add_molecule_top (1), in load order
@@ -366,7 +447,7 @@ def write_directory(spec):
     """returns dict(sys=path, cg={k: itp}, aa={k: (gro, itp)}, alt=(gro, itp), unknown=(gro, itp))"""
     rs = np.random.RandomState(spec["rand_seed"])
     recs = []
-    anum = 1
+    anum = spec.get("sys_anum0", 1)
     for (t, rids, pos) in truth(spec):
         if t == "W":
             atoms = [("W", "W", 1)]
@@ -379,15 +460,28 @@ def write_directory(spec):
     d = {"cg": {}, "aa": {}}
     d["sys"] = molgen.write_gro(molgen.fresh_path("gro", "sys"), recs, box=spec["box"], title=spec["title"])
     for k, sp in enumerate(spec["species"]):
-        d["cg"][k] = molgen.write_itp(molgen.fresh_path("itp", "cg"), sp["name"], [tuple(a) for a in sp["cg_atoms"]],
-                                      [tuple(b) for b in sp["cg_bonds"]])
-        d["aa"][k] = _write_end(sp["name"], sp["aa_atoms"], sp["aa_bonds"], sp["aa_pos"], sp["aa_vel"])
+        nb = sp.get("numbering") or {}
+        res = nb.get("cg_itp_res") or [1, 2, 3, 4]
+        d["cg"][k] = molgen.write_itp(molgen.fresh_path("itp", "cg"), sp["name"],
+                                      [(a[0], a[1], res[a[2] - 1]) for a in sp["cg_atoms"]],
+                                      [tuple(b) for b in sp["cg_bonds"]], numbers=nb.get("cg_itp_num"))
+        d["aa"][k] = _write_end(sp["name"], sp["aa_atoms"], sp["aa_bonds"], sp["aa_pos"], sp["aa_vel"], nb)
     return d
 
 
-def _write_end(name, atoms, bonds, pos, vel):
-    itp = molgen.write_itp(molgen.fresh_path("itp", "aa"), name, [tuple(a) for a in atoms], [tuple(b) for b in bonds])
-    recs = [(a[2], a[1], a[0], i + 1, pos[i], None if vel is None else vel[i]) for i, a in enumerate(atoms)]
+def _write_end(name, atoms, bonds, pos, vel, numbering=None):
+    """topology + coordinate file of an end molecule; `numbering`: the atom / residue numbers the two files carry"""
+    nb = numbering or {}
+    n = len(atoms)
+    ires = nb.get("aa_itp_res") or [1, 2, 3, 4]
+    gres = nb.get("aa_gro_res") or [1, 2, 3, 4]
+    inum = (nb.get("aa_itp_num") or [])[:n]
+    gnum = (nb.get("aa_gro_num") or [])[:n]
+    inum = inum if len(inum) == n else list(range(1, n + 1))
+    gnum = gnum if len(gnum) == n else list(range(1, n + 1))
+    itp = molgen.write_itp(molgen.fresh_path("itp", "aa"), name, [(a[0], a[1], ires[a[2] - 1]) for a in atoms],
+                           [tuple(b) for b in bonds], numbers=inum)
+    recs = [(gres[a[2] - 1], a[1], a[0], gnum[i], pos[i], None if vel is None else vel[i]) for i, a in enumerate(atoms)]
     gro = molgen.write_gro(molgen.fresh_path("gro", "aa"), recs, box=(9.0, 9.0, 9.0), title="end " + name)
     return gro, itp
 
@@ -460,7 +554,7 @@ def run_session(spec, keep=False):
                 elif op[0] == "end_alt":
                     sp = spec["species"][op[1]]
                     a, b, p, v = alt_end(sp)
-                    man.add_end_molecule(Molecule.from_files(*_write_end(sp["name"], a, b, p, v)))
+                    man.add_end_molecule(Molecule.from_files(*_write_end(sp["name"], a, b, p, v, sp.get("numbering"))))
                 elif op[0] == "end_unknown":
                     sp = spec["species"][0]
                     man.add_end_molecule(Molecule.from_files(*_write_end("ZZZ", sp["aa_atoms"], sp["aa_bonds"],
@@ -971,6 +1065,7 @@ def corpus_specs():
     out.append(empty_title_spec(rs))
     out += [incremental_witness(rs), gapped_resids_witness(rs)]
     out += [attr_route_witness(rs, k) for k in range(4)]
+    out += [numbering_witness(rs), shared_kinds_witness(rs)]
     return out
 
 
@@ -989,6 +1084,33 @@ def _two_species(rs, need_two_residues):
         b = [k for k in lo if k != a][0]
         if in_domain(spec, [a, b]):
             return spec, a, b
+
+
+def numbering_witness(rs):
+    """seeded C05-9: end molecules cut out of a bigger file (atoms 2301.., residue 480) - the written atom numbers
+    must still run from 1"""
+    spec, a, b = _two_species(rs, False)
+    spec = relayout(rs, spec, [a, "W", b, a, "W", a], [a, b])
+    for k in (a, b):
+        n = len(spec["species"][k]["aa_atoms"]) + 2
+        spec["species"][k]["numbering"] = dict(spec["species"][k]["numbering"], aa_gro_num=[2301 + i for i in range(n)],
+                                               aa_gro_res=[480, 481, 482, 483])
+    spec["pattern"] = "end_numbering"
+    return spec
+
+
+def shared_kinds_witness(rs):
+    """seeded C05-10: D = [X, Y...] and its free part M = [X] both loaded (the longer first), file D M M D W W M:
+    every residue belongs to exactly one molecule"""
+    while True:
+        spec = gen_spec(rs, kind="normal")
+        sh = spec.get("shared")
+        if sh and all(k in spec["load_order"] for k in sh) and in_domain(spec, sh):
+            break
+    d, m = sh
+    spec = relayout(rs, spec, [d, m, m, d, "W", "W", m], [d, m])
+    spec["pattern"] = "shared_residue_kinds"
+    return spec
 
 
 def attr_route_witness(rs, variant):
@@ -1093,7 +1215,11 @@ def describe(spec):
             "small_reference": any(len(sp["cg_atoms"]) < 3 for sp in spec["species"]),
             "triclinic": len(spec["box"]) == 9,
             "incremental": spec.get("n_ctor", len(spec["load_order"])) < len(spec["load_order"]),
-            "resid_mode": spec.get("resid_mode", "consecutive")}
+            "resid_mode": spec.get("resid_mode", "consecutive"),
+            "shared_residue_kinds": bool(spec.get("shared")) and all(k in spec["load_order"] for k in spec["shared"]),
+            "end_numbered_from_1": all((sp.get("numbering") or {}).get("aa_gro_num", [1])[:len(sp["aa_atoms"])] ==
+                                       list(range(1, len(sp["aa_atoms"]) + 1)) or "numbering" not in sp
+                                       for sp in spec["species"])}
 
 
 def correspondence(ctx):
@@ -1111,7 +1237,8 @@ def correspondence(ctx):
     cases, metas, hist = [], [], {}
     feat = {"triclinic": 0, "small_reference": 0, "multi_residue": 0, "wrap_resid": 0, "velocities": 0, "extrap_calls": 0,
             "files_written": 0, "refused_no_file": 0, "empty_title": 0, "incremental_system": 0,
-            "resid_gapped": 0, "resid_nonmonotone": 0, "resid_repeated": 0}
+            "resid_gapped": 0, "resid_nonmonotone": 0, "resid_repeated": 0, "shared_residue_kinds": 0,
+            "end_not_numbered_from_1": 0}
     for spec in specs:
         obs, bad = check_spec(ctx, spec, "K case")
         cases.append(case_term(spec, obs))
@@ -1124,6 +1251,8 @@ def correspondence(ctx):
         feat["wrap_resid"] += spec["resid0"] > 90000
         feat["empty_title"] += spec["title"] == ""
         feat["incremental_system"] += d["incremental"]
+        feat["shared_residue_kinds"] += d["shared_residue_kinds"]
+        feat["end_not_numbered_from_1"] += not d["end_numbered_from_1"]
         if "resid_" + d["resid_mode"] in feat:
             feat["resid_" + d["resid_mode"]] += 1
         feat["velocities"] += any(sp.get("aa_vel") is not None for sp in spec["species"])
@@ -1193,6 +1322,7 @@ def wrap_spec(rs):
         sp["aa_atoms"].append(["C%d" % len(sp["aa_atoms"]), sp["aa_atoms"][-1][1], sp["aa_atoms"][-1][2]])
         sp["aa_bonds"].append([len(sp["aa_atoms"]) - 2, len(sp["aa_atoms"]) - 1])
     sp["aa_vel"] = None
+    sp["numbering"] = gen_numbering(rs, sp)
     ncopies = 100000 // len(sp["aa_atoms"]) + 20
     spec = relayout(rs, spec, [k] * ncopies, [k])
     spec["pattern"] = "atom_number_wrap"
